@@ -334,6 +334,11 @@ class Harness:
                 raise RuntimeError("squid index rebuild did not finish: " + s.cache_log()[-800:])
             time.sleep(0.02)
 
+    @staticmethod
+    def kid_asserted(sq):
+        """assertion failures of a kid of an SMP instance (the master survives them and restarts the kid)"""
+        return [p for p in sq.problems() if "assertion failed" in p]
+
     def one(self, line):
         sc = parse_line(line)
         if sc is not None and sc["store"] in self.unavailable:
@@ -344,11 +349,11 @@ class Harness:
             self.n += 1
             sid = "t%dx%d" % (os.getpid() % 100000, self.n)
         sq = self.squids[sc["store"]]
-        if sq.workers and sq.problems():
+        if sq.workers and self.kid_asserted(sq):
             # a kid of the SMP instance died earlier in this batch (the master stays alive and restarts it): do not wait for timeouts
-            return "abort:squid-died " + re.sub(r"\s+", "_", sq.problems()[0])[:120]
+            return "abort:squid-died " + re.sub(r"\s+", "_", self.kid_asserted(sq)[0])[:120]
         out = Scenario(self, sc, sid).run()
-        if not sq.alive() or (sq.workers and sq.problems()):
+        if not sq.alive() or (sq.workers and self.kid_asserted(sq)):
             probs = sq.problems()
             return "abort:squid-died " + (re.sub(r"\s+", "_", probs[0])[:120] if probs else "")
         return out
@@ -368,7 +373,7 @@ class Harness:
         from concurrent.futures import ThreadPoolExecutor
         with ThreadPoolExecutor(max_workers=6) as ex:
             out = list(ex.map(rig.guarded(self.one, list(self.squids.values())), lines))
-        dead = [n for n, s in self.squids.items() if not s.alive() or (s.workers and s.problems())]
+        dead = [n for n, s in self.squids.items() if not s.alive() or (s.workers and self.kid_asserted(s))]
         for n in dead:                   # from the main thread, between batches
             self.crashes += 1
             try:
